@@ -135,16 +135,25 @@ int main(void)
     hit = p != q || x1 != x2 || y1 != y2;
 #else
     /* MODE_RESIZE */
+    struct ubuf_pic_common *cm = ubuf_pic_common_from_ubuf(u);
+#ifdef CHAIN
+    /* first link of a resize chain: any crop / extension (accepted or refused), so that the resize under test starts
+     * from an arbitrary reachable window instead of the freshly allocated one */
+    {
+        int a0 = nd_arg(), a1 = nd_arg(), a2 = nd_arg(), a3 = nd_arg();
+        (void)ubuf_pic_resize(u, a0, a1, a2, a3);
+    }
+#endif
+    size_t h0, v0;
+    uint8_t mp0;
+    ubuf_pic_size(u, &h0, &v0, &mp0);
     int x = nd_arg(), y = nd_arg();
-    VASSUME(x >= 0 && x < HS && y >= 0 && y < VS && x % hg == 0 && y % vg == 0);
+    VASSUME(x >= 0 && x < (int)h0 && y >= 0 && y < (int)v0 && x % hg == 0 && y % vg == 0);
     uint8_t *before = addr(u, p, x, y);
     struct ubuf *d = ubuf_dup(u);
     VASSERT(d != NULL, "dup succeeds");
     VASSERT(addr(d, p, x, y) == before, "a duplicate sees the same memory");
     int hskip = nd_arg(), vskip = nd_arg(), nh = nd_arg(), nv = nd_arg();
-    size_t h0, v0;
-    uint8_t mp0;
-    ubuf_pic_size(u, &h0, &v0, &mp0);
     int err = ubuf_pic_resize(u, hskip, vskip, nh, nv);
     size_t h1, v1;
     uint8_t mp1;
@@ -164,6 +173,9 @@ int main(void)
         if (h1 > 0 && v1 > 0) {
             uint8_t *lastpx = addr(u, p, (int)h1 - hg, (int)v1 - vg);
             VASSERT(lastpx >= base && lastpx + planes[p].mps <= base + total, "a resized picture stays inside the allocation");
+            VASSERT(lastpx >= cm->planes[p].buffer, "a resized picture stays inside its plane (start)");
+            if (p + 1 < NPL)
+                VASSERT(lastpx + planes[p].mps <= cm->planes[p + 1].buffer, "a resized picture stays inside its plane (distinct pixels never alias)");
         }
     }
     VASSERT(addr(d, p, x, y) == before, "resizing one handle does not move the duplicate's pixels");
